@@ -11,6 +11,7 @@ set_option linter.unusedSimpArgs false
 namespace Mqtt.Proofs.Broker
 open Mqtt.Iface.Broker Mqtt.Model.Broker
 open Mqtt.Model.Topics (MemTopics RMsg SNode RNode levels validQos Level)
+open Mqtt.Proofs.Topics (entryLevels)
 open Mqtt.Proofs.Topics (WF RWF abs absR good Entry)
 open Mqtt.Spec.Match (split validName validFilter matchLevels)
 
